@@ -20,7 +20,7 @@ Theorem enter_implies_checkEnter : forall (O : TimeOps) (P : prog O) sub t ns fa
   forallb (eval_need P t w) ns = true /\
   let '(ex, en, re) := ExEn P t (actives (gett w t)) far in
   framer_checkEnter P sub t en ex w = true /\
-  w' = guard (framer_enter P sub t en (framer_renter P sub t re (framer_rexit P sub t re (framer_exit P sub t ex w))))
+  w' = guard (framer_enter P sub t en (framer_renter P sub t re (framer_rexit P sub t re (framer_exit P sub t ex (run_acts P sub t (tracts_of ns) w)))))
              (activate P t far).
 Proof. exact transit_taken. Qed.
 Print Assumptions enter_implies_checkEnter.
